@@ -406,11 +406,17 @@ func (r *resolver) applyDeviation(y *Module, d *Deviation) error {
 			hasType.setUnits(d.Add.units)
 		}
 		if d.Add.HasDefault() {
-			if hasType.HasDefault() {
-				return fmt.Errorf("default already set on %s", d.Ident())
-			}
-			for _, deflt := range d.Add.Default() {
-				hasType.addDefault(deflt)
+			if ll, isLeafList := target.(*LeafList); isLeafList {
+				// a leaf-list can have any number of defaults, more can be added. the
+				// copies of a grouping's leaf-list share theirs, this one gets its own
+				ll.setDefault(append(append([]string{}, ll.defaultVals...), d.Add.Default()...))
+			} else {
+				if hasType.HasDefault() {
+					return fmt.Errorf("default already set on %s", d.Ident())
+				}
+				for _, deflt := range d.Add.Default() {
+					hasType.addDefault(deflt)
+				}
 			}
 		}
 		for _, unique := range d.Add.unique {
